@@ -156,7 +156,7 @@ def build_torch():
     t.randperm = st._ext('randperm')
     t.rand = st._ext('rand'); t.randn = st._ext('randn'); t.randint = st._ext('randint')
     t.rand_like = st._ext('rand_like'); t.randn_like = st._ext('randn_like')
-    t.cdist = st._ext('cdist'); t.searchsorted = st._ext('searchsorted')
+    t.cdist = st._ext('cdist')
     t.multinomial = st._ext('multinomial')
 
     nn_utils = mm('torch.nn.modules.utils', dict(
